@@ -868,7 +868,7 @@ pub fn step(cfg: &Cfg, sut: &mut Sut, m: &mut Model, pre: &Snapshot, op: Op, has
     };
 
     let vid = m.next_vid;
-    if let Op::Ins(..) = op {
+    if op.takes_vid() {
         m.next_vid += 1;
     }
 
@@ -891,6 +891,12 @@ pub fn step(cfg: &Cfg, sut: &mut Sut, m: &mut Model, pre: &Snapshot, op: Op, has
                 viol.push(v("C09", format!("{kdn}:{what}:{okind}:{at}"), format!("{okind} can never return: {msg}")));
                 return StepOut { obs: Obs::Unit, post: None, viol, pending: 0, dead: true };
             }
+            // a panic of the harness's own callback at a place where the harness did not
+            // expect the library to call it: the caller's own panic, nothing is specified
+            // about the state afterwards; the state is not explored further
+            if msg.starts_with(CB_MARK) {
+                return StepOut { obs: Obs::Unit, post: None, viol, pending: 0, dead: true };
+            }
             if !DOCUMENTED_PANICS.iter().any(|d| msg.contains(d)) {
                 let short: String = msg.chars().take(60).collect();
                 viol.push(v("C08", format!("{kdn}:panic:{okind}:{short}"), format!("{okind} panicked: {msg}")));
@@ -898,6 +904,12 @@ pub fn step(cfg: &Cfg, sut: &mut Sut, m: &mut Model, pre: &Snapshot, op: Op, has
             return StepOut { obs: Obs::Unit, post: None, viol, pending: 0, dead: true };
         }
     };
+    // an insert that returned although its value cannot be weighed / cloned: the library
+    // did not call the callback there (it may do so later); nothing is specified, the
+    // state is not explored further
+    if matches!(op, Op::InsWP(_) | Op::InsCP(_)) && !matches!(obs, Obs::CbPanic(_)) {
+        return StepOut { obs, post: None, viol, pending: 0, dead: true };
+    }
     for p in tracker().take_problems() {
         viol.push(v("C11", format!("{kdn}:drop-protocol:{okind}"), p.clone()));
         viol.push(v("C08", format!("{kdn}:drop-protocol:{okind}"), p));
@@ -1110,12 +1122,41 @@ pub fn step(cfg: &Cfg, sut: &mut Sut, m: &mut Model, pre: &Snapshot, op: Op, has
                 }
             }
         }
+        Op::InvIf(Pred::PanicAt1) => {
+            m.inv_calls += 1;
+            match &obs {
+                // the predicate was never shown key 1: an ordinary call
+                Obs::Items(chosen) => {
+                    for (k, _) in chosen {
+                        m.keys[*k as usize].has = false;
+                    }
+                }
+                // it panicked half way: whether the entries it had selected before are
+                // gone is not specified - the model follows the implementation for
+                // exactly those; every other entry must be untouched
+                Obs::CbPanic(chosen) => {
+                    for (k, _) in chosen {
+                        if !post_phys.contains_key(k) {
+                            m.keys[*k as usize].has = false;
+                        }
+                    }
+                }
+                _ => unreachable!(),
+            }
+        }
         Op::InvIf(p) => {
             m.inv_calls += 1;
             for (k, km) in m.keys.iter_mut().enumerate() {
                 if km.has && p.eval(k as u8, km.w) {
                     km.has = false;
                 }
+            }
+        }
+        // the caller's weigher / Clone panicked inside insert: nothing was inserted (U:
+        // the call had already done the maintenance every call begins with)
+        Op::InsWP(_) | Op::InsCP(_) => {
+            if u {
+                m.excess_ok = false;
             }
         }
         Op::Adv(_) | Op::Sync => {}
@@ -1326,7 +1367,7 @@ pub fn step(cfg: &Cfg, sut: &mut Sut, m: &mut Model, pre: &Snapshot, op: Op, has
 
     // ---- C11: invalidated and expired entries are released once maintenance has run
     // (U: the calls that begin with the purge; S: the previous call was sync()).
-    let purging_call = if u { matches!(op, Op::Ins(..) | Op::Get(_) | Op::Con(_) | Op::Inv(_)) } else { m.maintained };
+    let purging_call = if u { matches!(op, Op::Ins(..) | Op::Get(_) | Op::Con(_) | Op::Inv(_) | Op::InsWP(_)) } else { m.maintained };
     // one purge pass handles a bounded batch (100 / 500 nodes per queue): the clause
     // speaks about caches smaller than one batch
     let within_one_batch = pre.entries.len() <= if u { 100 } else { 500 };
